@@ -174,4 +174,10 @@ theorem snapshot (progs : List (List (AM.Conc.Op AM.Conc.HS Unit)))
   obtain ⟨m, rfl⟩ := AM.C03.health_snapshot progs hp sched hg r hr
   exact consistent m
 
+/-- the discipline `snapshot` assumes, read off the current source on every run: each locking method
+of `GenericSyncMap` (the map behind the readiness registry) is one critical section — it takes the
+map's mutex first and releases it with a deferred unlock -/
+theorem gen_syncmap_methods_locked :
+    AM.Gen.syncMapLocked.length = 7 ∧ AM.Gen.syncMapLocked.all (·.2) = true := by decide
+
 end AM.C18
